@@ -149,6 +149,7 @@ class Check:
         "Chains": {"C06", "C14", "C15", "C17"},
         "MontProg": {"C08"},
         "Enc": {"C04", "C05", "C19", "C07"},
+        "Derive": {"C08", "C18"},
     }
     ARITH_ALL = {"C01", "C02", "C03", "C04", "C05", "C06", "C07", "C09", "C11", "C12", "C14", "C15", "C17", "C18"}
 
@@ -210,34 +211,72 @@ class Check:
                 ok = ok and st == "ok"
         return ok
 
+    ENC_ALL = {"C04", "C05", "C19", "C07"}
+    DERIVE_ALL = {"C08", "C18"}
+
+    @staticmethod
+    def enc_props(name):
+        n = name.lower()
+        if "intoaffine" in n or "into_affine" in n:
+            return {"C04", "C19", "C07"}
+        if "fromaffine" in n or "from_affine" in n:
+            return {"C05", "C19"}
+        if "deserialize" in n:
+            return {"C19", "C04"}
+        if "serialize" in n:
+            return {"C19", "C05"}
+        return {"C04", "C05", "C19"}
+
+    @staticmethod
+    def derive_props(name):
+        n = name.lower()
+        if "sqrt" in n or "legendre" in n:
+            return {"C18", "C08"}
+        return {"C08"}
+
     def step_genarith(self):
-        """equality theorems `generated-from-Rust = hand model` for the straight-line arithmetic; only the ones that
-        concern this property are its obligations, and a failure is attributed to the theorem it occurs in"""
-        if self.pid not in self.ARITH_ALL:
+        """equality theorems `generated-from-Rust = hand model` (arithmetic, encoding layer, derive output); only the ones
+        that concern this property are its obligations, and a failure is attributed to the theorem it occurs in"""
+        self._translated("PP.Props.GenArith", "GenArith.lean", self.arith_props, self.ARITH_ALL, "lake_genarith_s")
+        self._translated("PP.Props.GenEnc", "GenEnc.lean", self.enc_props, self.ENC_ALL, "lake_genenc_s")
+        self._translated("PP.Props.GenDerive", "GenDerive.lean", self.derive_props, self.DERIVE_ALL, "lake_genderive_s")
+
+    def _translated(self, mod, proofs_file, props_of, all_props, tkey):
+        if self.pid not in all_props:
             return
-        mod = "PP.Props.GenArith"
+        if not os.path.exists(os.path.join(LEAN, *mod.split(".")) + ".lean"):
+            return
         names = [n for n in theorems_in(mod)]
-        mine = [n for n in names if self.pid in self.arith_props(n.split(".")[-1])]
+        mine = [n for n in names if self.pid in props_of(n.split(".")[-1])]
         if not mine:
             return
         with Lock("lake"):
             rc, out, dt = sh(["lake", "build", mod], cwd=LEAN)
-        self.timing["lake_genarith_s"] = round(dt, 2)
+        self.timing[tkey] = round(dt, 2)
         if rc == 0:
             for n in mine:
                 self.oblige("translated=model:%s" % n.split(".")[-1], True)
+            # these modules are part of the proof base: same token audit as the property modules
+            hits = []
+            for m in lean_imports_closure(mod):
+                pth = os.path.join(LEAN, *m.split(".")) + ".lean"
+                src = strip_lean_comments(open(pth).read())
+                for ln, line in enumerate(src.split("\n"), 1):
+                    if FORBIDDEN.search(line):
+                        hits.append("%s:%d:%s" % (m, ln, line.strip()[:60]))
+            self.oblige("audit:forbidden-tokens:%s" % mod, not hits, "; ".join(hits[:5]))
             return
-        # attribute errors of PP/Proofs/GenArith.lean to the theorem containing the line
-        src_path = os.path.join(LEAN, "PP", "Proofs", "GenArith.lean")
+        # attribute errors of the proofs file to the theorem containing the line
+        src_path = os.path.join(LEAN, "PP", "Proofs", proofs_file)
         starts = []
         if os.path.exists(src_path):
             for ln, line in enumerate(open(src_path).read().split("\n"), 1):
-                m = re.match(r"\s*theorem\s+([\w.']+)", line)
+                m = re.match(r"\s*(?:private\s+)?theorem\s+([\w.']+)", line)
                 if m:
                     starts.append((ln, m.group(1)))
         bad = set()
         unattributed = False
-        for m in re.finditer(r"PP/Proofs/GenArith\.lean:(\d+):\d+: error", out):
+        for m in re.finditer(r"PP/Proofs/%s:(\d+):\d+: error" % re.escape(proofs_file), out):
             ln = int(m.group(1))
             cand = [nm for (st_, nm) in starts if st_ <= ln]
             if cand:
@@ -246,6 +285,9 @@ class Check:
                 unattributed = True
         if not bad and not unattributed:
             unattributed = True     # failed elsewhere (e.g. the generated file itself does not compile)
+        short_names = set(n.split(".")[-1] for n in names)
+        if any(b not in short_names for b in bad):
+            unattributed = True     # a helper lemma failed: every theorem after it is unchecked
         for n in mine:
             short = n.split(".")[-1]
             broken = unattributed or short in bad or short.replace("_eq", "") in bad
